@@ -541,4 +541,88 @@ theorem schedFL_noninterference_perLinker (kinds : Nat → Kind) (cfgs : Nat →
       (runSchedFL .perLinker kinds cfgs orcs u0' (ops.filter (fun op => op.job == j))).jobs j :=
   gsched_noninterference_perLinker FJob.iface _ _ {} u0 u0' _ _ j rfl (framesOf_filter ops j).symm
 
+/-! ### non-vacuity: one plain and one find_link job, alternating -/
+
+section
+open TrackpyV.Assign
+
+/-- job 0 is plain, every other job is a find_link job -/
+def exKinds : Nat → Kind := fun j => if j = 0 then .plain else .findLink
+
+/-- every frame of every find_link job sees the bright spot at (11,1) (`C14Algo.exOrc`) -/
+def exOrcs : Nat → Int → Oracle := fun _ _ => exOrc
+
+/-- a family that differs from `exOrcs` on every job but job 1 (never relocates anything there) -/
+def exOrcs' : Nat → Int → Oracle := fun j _ => if j = 1 then exOrc else fun _ _ => []
+
+/-- job 1 (find_link): features at (0,0) and (10,0); in frame 1 only (1,0) is detected — the source
+at (10,0) is LOST and the oracle answers (11,1).  Job 0 (plain): two features that swap their
+order.  Stepped 1, 0, 1, 0. -/
+def exOpsFL : List Op :=
+  [.frame 1 0 [[0, 0], [10, 0]], .frame 0 0 [[0, 0], [10, 0]], .frame 1 1 [[1, 0]],
+   .frame 0 1 [[11, 0], [1, 0]]]
+
+/-- `C14Algo.exStep` on the state as this system writes it -/
+theorem exStepFL : flAlgoStep exL (Linker.firstState 0 [[0, 0], [10, 0]]) 1 exOrc [[1, 0]] =
+    { dsts := [[1, 0], [11, 1]], added := [1], masses := [30], labels := [0, 1] } := exStep
+
+/-- the step has a lost source (a sub-net with a shortage) and a non-empty oracle answer -/
+example : (∃ g ∈ flGroups exL (Linker.firstState 0 [[0, 0], [10, 0]]) 1 [[1, 0]], short g = true) ∧
+    exOrc [[1, 0]] [[10, 0]] = [([11, 1], 30)] :=
+  have hg : flGroups exL (Linker.firstState 0 [[0, 0], [10, 0]]) 1 [[1, 0]] = [([0], [0]), ([1], [])] := by
+    decide +kernel
+  ⟨⟨([1], []), by rw [hg]; simp, rfl⟩, by decide +kernel⟩
+
+macro "jfl_eval" : tactic => `(tactic|
+  simp [runSchedFL, gRun, gStep, GSys.init0, upd, gBase, gAfter, jobStep, flStepJ, plainStep,
+    FJob.first, FJob.iface, flLevel, exStepFL, exKinds, exOrcs, exOrcs', exOpsFL, Op.job,
+    List.range, List.range.loop, List.range'])
+
+macro "jfl_eval_plain" : tactic => `(tactic|
+  simp [runSchedFL, gRun, gStep, GSys.init0, upd, gBase, gAfter, jobStep, flStepJ, plainStep,
+    FJob.first, FJob.iface, flLevel, exKinds, exOrcs, exOpsFL,
+    jobLabels, Linker.firstState, oversizeB, nextState, initCfg,
+    algoLabels, algoChoices, groupChoice, allSomeL, srcOf, solveOrdered, go, exceeds,
+    taken, better, labelOf, trackOf, freshBase,
+    stepGroups, stepCands, subnets, candsOf, candsOfRow, distRow, dist2,
+    view, sqI, insCand, exL, addSource,
+    hasDest, realDests, List.find?, getD', List.zipIdx, List.range, List.range.loop, List.range'])
+
+/-- the interleaved run (code as it is, base counter at 7): the find_link job emits its second
+level with the relocated feature appended, labelled as the continuation of trajectory 1 … -/
+example : ((runSchedFL .perLinker exKinds (fun _ => exL) exOrcs 7 exOpsFL).jobs 1).out.map
+    (fun l => (l.t, l.dsts, l.labels, l.added)) =
+    [(0, [[0, 0], [10, 0]], [0, 1], []), (1, [[1, 0], [11, 1]], [0, 1], [1])] := by
+  jfl_eval
+/-- … exactly as alone (the instance of `schedFL_noninterference`, evaluated) … -/
+example : ((runSchedFL .perLinker exKinds (fun _ => exL) exOrcs 0
+    (exOpsFL.filter (fun op => op.job == 1))).jobs 1).out.map
+    (fun l => (l.t, l.dsts, l.labels, l.added)) =
+    [(0, [[0, 0], [10, 0]], [0, 1], []), (1, [[1, 0], [11, 1]], [0, 1], [1])] := by
+  jfl_eval
+/-- … and as under another oracle family that agrees on job 1 (`schedFL_oracle_locality`) -/
+example : ((runSchedFL .perLinker exKinds (fun _ => exL) exOrcs' 7 exOpsFL).jobs 1).out.map
+    (fun l => (l.t, l.dsts, l.labels, l.added)) =
+    [(0, [[0, 0], [10, 0]], [0, 1], []), (1, [[1, 0], [11, 1]], [0, 1], [1])] := by
+  jfl_eval
+/-- the uuids of the find_link job's points: the second level draws TWO (detected + relocated);
+in `shared` mode the plain job's draws lie in between -/
+example : ((runSchedFL .perLinker exKinds (fun _ => exL) exOrcs 7 exOpsFL).jobs 1).uids =
+    [[0, 1], [2, 3]] := by
+  jfl_eval
+example : ((runSchedFL .shared exKinds (fun _ => exL) exOrcs 7 exOpsFL).jobs 1).uids =
+    [[7, 8], [11, 12]] := by
+  jfl_eval
+example : ((runSchedFL .shared exKinds (fun _ => exL) exOrcs 7 exOpsFL).jobs 0).uids =
+    [[9, 10], [13, 14]] := by
+  jfl_eval
+  split <;> rfl
+
+/-- the plain job in the same run: the two features swap their order, the labels follow -/
+example : ((runSchedFL .perLinker exKinds (fun _ => exL) exOrcs 7 exOpsFL).jobs 0).out.map
+    (fun l => (l.t, l.dsts, l.labels, l.added)) =
+    [(0, [[0, 0], [10, 0]], [0, 1], []), (1, [[11, 0], [1, 0]], [1, 0], [])] := by
+  jfl_eval_plain
+end
+
 end TrackpyV.JobsFindLink
